@@ -664,7 +664,7 @@ def run(ctx):
             raise core.MachineryError("coverage hole: operations explored %s" % sorted(names))
         ctx.exhaustive["L1_small"] = True
         keyed = sorted(trs, key=lambda t: core.stable_hash([ctx.seed, t]))
-        chosen = keyed[:ctx.pick(900, 100000)]
+        chosen = keyed[:ctx.pick(900, 9000)]
         ctx.exhaustive["L2_transitions"] = len(chosen) == len(keyed)
         ctx.extra["transitions_emitted"] = len(trs)
         ctx.extra["transitions_replayed"] = len(chosen)
